@@ -13,8 +13,20 @@ import numpy as np
 PI = math.pi
 
 
-def make_grid(spec):
+_SHARED_GRIDS = {}
+
+
+def make_grid(spec, share=False):
+    """grid object for a spec; share=True returns ONE object per spec for the life of the process (a caller that keeps its grid)"""
+    import json
+
     import pde
+
+    if share:
+        key = json.dumps(spec, sort_keys=True)
+        if key not in _SHARED_GRIDS:
+            _SHARED_GRIDS[key] = make_grid(spec)
+        return _SHARED_GRIDS[key]
 
     k = spec["kind"]
     if k == "cart":
